@@ -46,39 +46,44 @@ def run(ctx):
     ctx.inst("C12/D1", "single construction site", len(hand) == 1,
              "hand-written construction sites of PublicKey: %s (derived: %s)" % ([p for (p, _, _) in hand], sorted({p for (p, bb, exp, rv) in sites if exp})))
     nf = fx.fn_opt(hand[0][0]) if len(hand) == 1 else None
-    KEYID_FN = None       # the function computing a key's identifier, found as the producer of the constructor's key_id operand
+    nb = None
     if nf:
-        nb = body_of(fx, nf["key"])
-        ctx.touch_body(nb)
-        rv = hand[0][2]
-        ops = dict(zip(rv["fields"], rv["ops"]))
-        kl = nb.trace(ops["key_id"])
-        okk = len(kl) == 1 and kl[0].kind == "call" and kl[0].path == (OK, F0) and \
-            (kl[0].data[1].get("resolved_key") or kl[0].data[1].get("callee_key")) in fx.fns
-        detail = "key_id <- {%s}" % ", ".join(leaf_s(nb, l) for l in kl)
-        if okk:
-            ct = kl[0].data[1]
-            KEYID_FN = fx.fns[ct.get("resolved_key") or ct.get("callee_key")]
-            names = ["typ", "scheme", "keyid_hash_algorithms", "value"]
-            same = []
-            for ai, fname in enumerate(names):
-                if ai >= len(ct["args"]):
-                    same.append(False)
-                    continue
-                ra = root_ids(nb, ct["args"][ai])
-                rf = root_ids(nb, ops[fname])
-                # `value` is wrapped as PublicKeyValue(value): compare with the wrapped operand
-                if fname == "value":
-                    rf = set()
-                    for l in nb.trace(ops[fname]):
-                        if l.kind == "agg":
-                            rf |= set(root_ids(nb, l.data[2]["ops"][0]))
-                        else:
-                            rf.add((l.kind, l.data if l.kind == "param" else str(l.data), l.path))
-                    rf = frozenset(rf)
-                same.append(bool(ra) and ra == rf)
-            okk = all(same)
-            detail += "; arguments are the operands stored in typ/scheme/keyid_hash_algorithms/value: %s" % same
+        # in the REGION of the constructor (the key-id computation and the wire-form builder inlined, whatever their names and
+        # however they receive their arguments): the identifier is the hash of the wire form of exactly the four stored parts
+        wf = keys.wire_form_args(ctx, nf["key"])
+        okk = False
+        detail = "no single construction of the wire form (shims::PublicKey::new) in the region of the constructor"
+        if wf:
+            nb, wt, parts = wf
+            site = [st for i in sorted(nb.reach) for st in nb.blocks[i]["stmts"] if st["k"] == "assign" and st["rv"].get("adt") == PK and
+                    nb.blocks[i].get("origin_key", nf["key"]) == nf["key"]]
+            if len(site) == 1:
+                ops = dict(zip(site[0]["rv"]["fields"], site[0]["rv"]["ops"]))
+                same = {}
+                for fname in ("typ", "scheme", "keyid_hash_algorithms"):
+                    ra = frozenset((l.kind, l.data if l.kind == "param" else str(l.data)[:40], l.path) for l in parts[fname])
+                    rf = frozenset((l.kind, l.data if l.kind == "param" else str(l.data)[:40], l.path) for l in nb.trace(ops[fname]))
+                    same[fname] = bool(ra) and ra == rf
+                # the key text derives from the bytes stored in `value` (wrapped as PublicKeyValue) and from nothing else but the key type
+                vroots = set()
+                for l in nb.trace(ops["value"]):
+                    if l.kind == "agg":
+                        vroots |= {(x.kind, x.data if x.kind == "param" else None, x.path) for x in nb.trace(l.data[2]["ops"][0])}
+                    else:
+                        vroots.add((l.kind, l.data if l.kind == "param" else None, l.path))
+                troots = {(l.kind, l.data if l.kind == "param" else None, l.path) for l in nb.trace(ops["typ"])}
+                got = {(l.kind, l.data if l.kind == "param" else None, l.path) for l in parts["value"]}
+                same["value"] = bool(got & vroots) and got <= (vroots | troots)
+                no_id = bool(parts["keyid"]) and all(l.kind == "agg" and l.data[2].get("variant") == "None" for l in parts["keyid"])
+                no_priv = all(l.kind in ("const", "agg") for l in parts["private"]) and not any(
+                    l.kind == "const" and l.data.get("int") == 1 for l in parts["private"])
+                # the stored key_id is the identifier computed here (D2 checks that it is hex(digest) of that wire form), not a
+                # value looked up or carried in from elsewhere
+                kl = nb.trace(ops["key_id"])
+                fresh = bool(kl) and all(l.kind == "agg" and l.data[2].get("adt") == "crypto::KeyId" for l in kl)
+                same["key_id is the identifier computed in the constructor"] = fresh
+                okk = all(same.values()) and no_id and no_priv
+                detail = "wire-form parts equal the operands stored in typ/scheme/keyid_hash_algorithms/value: %s; no keyid part: %s; no private part: %s" % (same, no_id, no_priv)
         ctx.inst("C12/D1", "key_id = <key id function>(the stored typ, scheme, hash algorithms, value)", okk, detail, nf["at"])
     else:
         ctx.bad("C12/D1", "constructor", "no single hand-written construction site of PublicKey")
@@ -106,31 +111,14 @@ def run(ctx):
                 leaks.append((f["path"], rt))
     ctx.inst("C12/D1", "no public function returns &mut PublicKey / &mut KeyId", not leaks, "offenders: %s" % leaks)
     ksites = [(p, exp) for (p, bb, exp, rv) in shared.agg_sites(fx, "crypto::KeyId") if not exp]
-    ctx.inst("C12/D1", "KeyId construction sites", sorted(p for (p, _) in ksites) == sorted(["<crypto::KeyId as std::str::FromStr>::from_str"] + ([KEYID_FN["path"]] if KEYID_FN else [])),
-             "hand-written construction sites of KeyId: %s" % sorted(p for (p, _) in ksites))
+    others = sorted(p for (p, _) in ksites if p != "<crypto::KeyId as std::str::FromStr>::from_str")
+    ctx.inst("C12/D1", "KeyId construction sites", "<crypto::KeyId as std::str::FromStr>::from_str" in [p for (p, _) in ksites] and len(others) == 1,
+             "hand-written construction sites of KeyId: %s (the parser, and one function that computes an identifier - its payload is checked in D2)" % sorted(p for (p, _) in ksites))
     # ---- D2
-    cf = KEYID_FN
-    sf = keys.find_shim_fn(fx)
-    SHIM = sf["path"] if sf else None
-    if cf and sf:
-        cb = ctx.region(None, policy="private", key=cf["key"])
-        # the shim may be built in a module-private helper: look through private callees (shim_public_key itself stays a call)
-        from ..cg import inline_region
-        from ..core import Body as _B
-        pol = lambda fn: fn["kind"] in ("Fn", "AssocFn") and not fn.get("impl_trait") and fn.get("vis") != "Public" and fn["path"] != SHIM
-        cb = _B(inline_region(fx, cf["key"], 4, pol))
-        ctx.touch_body(cb)
-        sc = cb.calls_named(SHIM)
-        oks = len(sc) == 1
-        detail = "%d call(s) of the wire-form builder %s" % (len(sc), SHIM)
-        if oks:
-            t = sc[0][1]
-            roots = [root_ids(cb, a) for a in t["args"][:4]]
-            oks = roots == [frozenset([("param", i, ())]) for i in (1, 2, 3, 4)] and (op_const(t["args"][4]) or {}).get("int") == 0
-            kl = cb.trace(t["args"][5])
-            oks = oks and bool(kl) and all(l.kind == "agg" and l.data[2].get("variant") == "None" for l in kl)
-            detail = "shim_public_key(%s, private=%s, keyid=%s)" % ([sorted(r) for r in roots], (op_const(t["args"][4]) or {}).get("int"), [leaf_s(cb, l) for l in kl])
-        ctx.inst("C12/D2", "pre-image = shim(key type, scheme, hash algorithms, key bytes; no keyid, no private part)", oks, detail, cf["at"])
+    cf = nf
+    sf = True
+    if nb is not None:
+        cb = nb
         dg = [(i, t) for (i, t) in cb.calls_named("ring::digest::Context::new")]
         alg = set()
         for (i, t) in dg:
@@ -148,38 +136,33 @@ def run(ctx):
                 src = cb.trace(l.data[1]["args"][1])
                 okid = okid and bool(src) and all(s_.kind == "call" and callee_name(s_.data[1]) == "ring::digest::Context::finish" for s_ in src)
         ctx.inst("C12/D2", "key id = hex(digest)", okid, "KeyId payload <- {%s}" % ", ".join(leaf_s(cb, l) for l in idl), cf["at"])
-        # shim construction inside shim_public_key
-        sb = body_of(fx, sf["key"])
-        ctx.touch_body(sb)
-        nc = sb.calls_named("interchange::cjson::shims::PublicKey::new")
-        oksh = len(nc) == 1
-        if oksh:
-            t = nc[0][1]
-            r0, r1, r2 = root_ids(sb, t["args"][0]), root_ids(sb, t["args"][1]), root_ids(sb, t["args"][2])
-            keyl = sb.trace(t["args"][3], (), None, {"__flow_all__": lambda tt: True, "__agg_all__": True})
-            only_p4 = bool(keyl) and all((l.kind == "param" and l.data in (4, 1)) or l.kind == "const" for l in keyl) and any(l.kind == "param" and l.data == 4 for l in keyl)
-            oksh = r0 == frozenset([("param", 1, ())]) and r1 == frozenset([("param", 2, ())]) and r2 == frozenset([("param", 3, ())]) and only_p4 \
-                and root_ids(sb, t["args"][4]) == frozenset([("param", 6, ())])
-        ctx.inst("C12/D2", "shim fields come from the corresponding arguments", oksh, "shims::PublicKey::new(keytype, scheme, hash algorithms, encode(public key), keyid, private)", sf["at"])
+        # what is hashed is (a serialisation of) that wire form and nothing else
+        upd = cb.calls_named("ring::digest::Context::update")
+        okh = len(upd) >= 1
+        hl = []
+        for (i, t) in upd:
+            hl = [l for l in cb.trace(t["args"][1], (), lambda tt: callee_name(tt) == keys.SHIM_CTOR, {"__flow_all__": lambda tt: True, "__agg_all__": True})
+                  if l.kind not in ("const",) and not (l.kind == "agg" and l.data[2].get("agg") == "closure")]
+            # (the error text of the unknown-key-type arm mentions the key type: a parameter leaf, part of the wire form anyway)
+            okh = okh and any(l.kind == "call" and callee_name(l.data[1]) == keys.SHIM_CTOR for l in hl) and \
+                all((l.kind == "call" and callee_name(l.data[1]) == keys.SHIM_CTOR) or l.kind == "param" for l in hl)
+        ctx.inst("C12/D2", "pre-image = shim(key type, scheme, hash algorithms, key bytes; no keyid, no private part)", okh,
+                 "bytes fed to the digest derive from {%s}" % ", ".join(sorted({leaf_s(cb, l)[:80] for l in hl})), cf["at"])
         chains = canon.check_derivations(ctx, "C12/D2")
     else:
-        ctx.bad("C12/D2", "key id function / wire-form builder", "not found by role (producer of the constructor's key_id; the function calling shims::PublicKey::new)")
+        ctx.bad("C12/D2", "key id computation", "the constructor's region has no single wire-form construction to hash (failing closed)")
     # ---- D3
     keys.check_pubkey_deser(ctx, "C12/D3")
     ser = [g for g in fx.doc["fns"] if g["path"].startswith("<crypto::PublicKey as") and g["path"].endswith("Serialize>::serialize")]
     if len(ser) == 1:
-        b = body_of(fx, ser[0]["key"])
-        sc = b.calls_named(SHIM) if SHIM else []
-        okse = len(sc) == 1
-        if okse:
-            t = sc[0][1]
-            want = ["typ", "scheme", "keyid_hash_algorithms", "value"]
-            got = []
-            for ai in range(4):
-                r = root_ids(b, t["args"][ai])
-                got.append(sorted(p[0][1] for (k, i, p) in r if k == "param" and i == 1 and p))
-            okse = all(g and g[0] == w for g, w in zip(got, want))
-            ctx.inst("C12/D3", "encoder writes the stored identity inputs", okse, "shim_public_key(self.%s)" % got, ser[0]["at"])
+        wf2 = keys.wire_form_args(ctx, ser[0]["key"])
+        got = {}
+        if wf2:
+            for name in ("typ", "scheme", "keyid_hash_algorithms", "value", "keyid"):
+                got[name] = sorted({l.path[0][1] if (l.kind == "param" and l.data == 1 and l.path) else "?" for l in wf2[2][name] if l.kind != "agg" or name != "keyid"})
+        okse = bool(wf2) and got["typ"] == ["typ"] and got["scheme"] == ["scheme"] and got["keyid_hash_algorithms"] == ["keyid_hash_algorithms"] \
+            and "value" in got["value"] and set(got["value"]) <= {"value", "typ"}
+        ctx.inst("C12/D3", "encoder writes the stored identity inputs", okse, "wire form built from self.%s" % got, ser[0]["at"])
     else:
         ctx.bad("C12/D3", "PublicKey encoder", "hand-written Serialize not found")
     # ---- D4
